@@ -15,7 +15,7 @@ def run_property(pid, repo_root, tier, overlay=None, write=True, quiet=False):
     mod = importlib.import_module(f"sa.props.{pid}")
     repo = Repo(repo_root, overlay=overlay)
     ctx = report.Context(pid, repo, tier)
-    mod.check(ctx)
+    report.run_check(mod, ctx)
     return ctx, mod
 
 
